@@ -90,6 +90,8 @@ pub trait WithExtMetadataBlocks {
         let ext_metadata_blocks = self.blocks_ref();
 
         for ext_metadata_block in ext_metadata_blocks {
+            ext_metadata_block.validate_length()?;
+
             let remaining_bits =
                 ext_metadata_block.length_bits() - ext_metadata_block.required_bits();
 
